@@ -1,4 +1,6 @@
 import MpgsModel.Model.Conn
+import MpgsModel.Lemmas.Bump
+import MpgsModel.Lemmas.BumpRoles
 /-!
 # C01 — Only datagrams authenticated under the session key can affect a connection
 
@@ -122,6 +124,110 @@ theorem C01_prekey_single_hello (C : Crypto) (R : Role) (c : Conn) (t : Int) (h 
             refine ⟨hgate.1, ?_, hl.symm, hc⟩
             rw [hgate.2]; rfl
 
+
+/-! ### from one step to whole histories
+
+`stats.dropped` is write-only (`Lemmas/Bump.lean`: every operation commutes with adding to it), so
+the per-step theorems lift to histories: mark any set of positions of a history whose operation
+is the arrival of a datagram that the endpoint - in the state it has *without* the marked
+operations - does not authenticate (by the theorems above: everything not sealed under the
+session key; before a key, everything but the one expected hello).  Erasing the marked operations
+changes nothing but the counter: same final state up to `dropped`, same outputs for every other
+operation, and each marked operation itself only reports `dropped` / `False`. -/
+
+/-- the history without the marked operations -/
+def eraseOps : List Bool → List Op → List Op
+  | true :: ms, _ :: ops => eraseOps ms ops
+  | false :: ms, op :: ops => op :: eraseOps ms ops
+  | _, ops => ops
+
+/-- per-operation outputs of a run -/
+def runPer (E : Env) : Conn → List Op → List (List Out)
+  | _, [] => []
+  | c, op :: ops => (step E c op).2 :: runPer E (step E c op).1 ops
+
+def eraseOuts : List Bool → List (List Out) → List (List Out)
+  | true :: ms, _ :: os => eraseOuts ms os
+  | false :: ms, o :: os => o :: eraseOuts ms os
+  | _, os => os
+
+def markedOuts : List Bool → List (List Out) → List (List Out)
+  | true :: ms, o :: os => o :: markedOuts ms os
+  | false :: ms, _ :: os => markedOuts ms os
+  | _, _ => []
+
+/-- every marked operation is a datagram arrival that the state of the *erased* run at that
+point discards as unauthentic -/
+def Unauthentic (E : Env) : Conn → List Bool → List Op → Prop
+  | c, true :: ms, op :: ops =>
+    (∃ t h d, op = .recv t h d ∧ recvDatagram E.C E.R c t h d = drop1 c) ∧ Unauthentic E c ms ops
+  | c, false :: ms, op :: ops => Unauthentic E (step E c op).1 ms ops
+  | _, _, _ => True
+
+def marks : List Bool → List Op → Nat
+  | true :: ms, _ :: ops => marks ms ops + 1
+  | false :: ms, _ :: ops => marks ms ops
+  | _, _ => 0
+
+theorem noninterference_aux (E : Env) (hR : E.R.Bumps) (ms : List Bool) (ops : List Op) (c : Conn) (k : Nat)
+    (hu : Unauthentic E c ms ops) :
+    (run E (bump k c) ops).1 = bump (k + marks ms ops) (run E c (eraseOps ms ops)).1 ∧
+    eraseOuts ms (runPer E (bump k c) ops) = runPer E c (eraseOps ms ops) ∧
+    (∀ o ∈ markedOuts ms (runPer E (bump k c) ops), o = [.ev .dropped, .ret .rejected]) := by
+  induction ops generalizing ms c k with
+  | nil =>
+    cases ms with
+    | nil => exact ⟨rfl, rfl, fun o h => by cases h⟩
+    | cons b ms => cases b <;> exact ⟨rfl, rfl, fun o h => by cases h⟩
+  | cons op ops ih =>
+    cases ms with
+    | nil =>
+      refine ⟨?_, ?_, fun o h => by cases h⟩
+      · have := bump_run k E hR c (op :: ops)
+        simp only [eraseOps, marks, Nat.add_zero]
+        rw [this]
+      · simp only [eraseOuts, eraseOps]
+        clear ih hu
+        induction (op :: ops) generalizing c with
+        | nil => rfl
+        | cons a l ih2 => simp only [runPer, bump_step k E hR]; rw [ih2]
+    | cons b ms =>
+      cases b with
+      | false =>
+        simp only [Unauthentic] at hu
+        have h := ih ms (step E c op).1 k hu
+        simp only [run, runPer, eraseOps, eraseOuts, markedOuts, marks, bump_step k E hR]
+        exact ⟨h.1, by rw [h.2.1], h.2.2⟩
+      | true =>
+        simp only [Unauthentic] at hu
+        obtain ⟨⟨t, h, d, hop, hdrop⟩, hu'⟩ := hu
+        subst hop
+        have hstep : step E (bump k c) (.recv t h d) = (bump (k + 1) c, [.ev .dropped, .ret .rejected]) := by
+          rw [bump_step k E hR]
+          simp only [step, hdrop, drop1]
+          simp [bump, Nat.add_assoc, Nat.add_comm 1 k]
+        have hi := ih ms c (k + 1) hu'
+        simp only [run, runPer, eraseOps, eraseOuts, markedOuts, marks, hstep]
+        refine ⟨?_, hi.2.1, ?_⟩
+        · rw [hi.1]; congr 1; omega
+        · intro o ho
+          rcases List.mem_cons.mp ho with e | e
+          · exact e
+          · exact hi.2.2 o e
+
+/-- **History-level non-interference.** For every history and every marking of unauthentic
+datagram arrivals in it (any number, anywhere): the final state is the state of the history
+without them, with `dropped` raised by their number; every other operation produces exactly the
+outputs it produces without them (deliveries, callbacks, emitted datagrams, return values); and
+each marked arrival itself only reports `dropped` and returns `False`. -/
+theorem C01_history_noninterference (E : Env) (hR : E.R.Bumps) (c : Conn) (ms : List Bool) (ops : List Op)
+    (hu : Unauthentic E c ms ops) :
+    (run E c ops).1 = bump (marks ms ops) (run E c (eraseOps ms ops)).1 ∧
+    eraseOuts ms (runPer E c ops) = runPer E c (eraseOps ms ops) ∧
+    (∀ o ∈ markedOuts ms (runPer E c ops), o = [.ev .dropped, .ret .rejected]) := by
+  have := noninterference_aux E hR ms ops c 0 hu
+  simpa [bump_zero] using this
+
 /-! ### non-vacuity: the hypotheses are met by concrete datagrams -/
 
 /-- a 36-byte datagram with `length = 0` and an AEAD that rejects everything -/
@@ -129,5 +235,24 @@ example : recvDatagram ⟨fun _ _ _ p => p, fun _ _ _ _ => none⟩ baseRole
       { isServer := true, key := some [1] } 5 ⟨true, 0, .app, 1, 0, 0, 0, 0⟩ (List.replicate 36 0)
     = drop1 { isServer := true, key := some [1] } :=
   C01_keyed_unauthentic_noop _ _ _ _ _ _ [1] rfl (Or.inr rfl)
+
+/-- the hypothesis on the handshake handlers holds for the base class and for both subclasses,
+whatever the external functions (`Hs`) do -/
+theorem C01_roles_do_not_read_dropped (H : Hs) (tok : Nat) (tt : Option Nat) :
+    baseRole.Bumps ∧ (clientRole H).Bumps ∧ (serverRole H tok tt).Bumps :=
+  ⟨baseRole_bumps, clientRole_bumps H, serverRole_bumps H tok tt⟩
+
+/-- non-vacuity of the history theorem: a keyed endpoint sends, receives a forged 36-byte datagram
+(marked), builds a packet: the marking is `Unauthentic`, one operation is erased -/
+example :
+    let E : Env := ⟨⟨1500⟩, ⟨fun _ _ _ p => p, fun _ _ _ _ => none⟩, baseRole⟩
+    let c : Conn := { isServer := true, key := some [1], status := .connected }
+    let ops : List Op := [.send [7] 0 none, .recv 5 ⟨true, 0, .app, 1, 0, 0, 0, 0⟩ (List.replicate 36 0), .build 100]
+    Unauthentic E c [false, true, false] ops ∧ marks [false, true, false] ops = 1 ∧
+      (eraseOps [false, true, false] ops).length = 2 := by
+  intro E c ops
+  refine ⟨?_, rfl, rfl⟩
+  simp only [ops, Unauthentic]
+  exact ⟨⟨_, _, _, rfl, C01_keyed_unauthentic_noop _ _ _ _ _ _ [1] rfl (Or.inr rfl)⟩, trivial⟩
 
 end Mpgs.Conn
